@@ -69,6 +69,9 @@ structure FieldDef where
   deriving Inhabited
 
 structure Layer where
+  /-- `some (names, n)`: a key-removal marker (std.objectRemoveKey): the `names` defined in the `n`
+      layers below it are masked for reads from above; it defines nothing itself -/
+  mask : Option (List String × Nat) := none
   dollar : Option ObjId            -- enclosing `$`; none = this object is the root
   locals : List Bind
   asserts : List (Expr × Option Expr)
@@ -208,9 +211,26 @@ def insertSortedS (n : String) : List String → List String
 
 def sortDedupS (l : List String) : List String := l.foldr insertSortedS []
 
+/-- the definitions of `n` among the first `upTo` layers that a read from above sees, top-most
+    first, each with its layer index: a key-removal marker at position `p` with `(names, k)` masks
+    the definitions of those names in layers `[p-k, p)` -/
+def findDefs (layers : List Layer) (upTo : Nat) (n : String) : List (Nat × FieldDef) :=
+  let rec go : List Layer → Nat → Nat → List (Nat × FieldDef)
+    | [], _, _ => []
+    | l :: below, i, maskLow =>          -- `l` is layer `i`; `below` are layers `i-1 … 0`
+      match l.mask with
+      | some (names, k) =>
+        let maskLow' := if names.contains n then min maskLow (i - k) else maskLow
+        go below (i - 1) maskLow'
+      | none =>
+        match findField l.fields n with
+        | some f => if i ≥ maskLow then go below (i - 1) maskLow else (i, f) :: go below (i - 1) maskLow
+        | none => go below (i - 1) maskLow
+  go (layers.take upTo).reverse ((layers.take upTo).length - 1) (layers.take upTo).length
+
 /-- visibility of `n` by the language rule: top-most `::`/`:::` marker wins, else visible -/
 def visOf (layers : List Layer) (n : String) : Option Vis :=
-  let defs := layers.reverse.filterMap (fun l => findField l.fields n)
+  let defs := (findDefs layers layers.length n).map (·.2)
   let rec go : List FieldDef → Option Vis
     | [] => none
     | f :: r => match f.vis with
@@ -226,7 +246,7 @@ def fieldNames (layers : List Layer) (includeHidden : Bool) : List String :=
     | none => false
 
 def hasFieldAll (layers : List Layer) (n : String) : Bool :=
-  layers.any (fun l => (findField l.fields n).isSome)
+  !(findDefs layers layers.length n).isEmpty
 
 def paramName : Param → String | .mk n _ => n
 def paramDflt : Param → Option Expr | .mk _ d => d
@@ -264,7 +284,8 @@ def bindArgs (ps : List Param) (pos : List Ref) (named : List (String × Ref)) :
 
 def builtinArity : String → Option Nat
   | "length" | "type" | "objectFields" | "objectFieldsAll" | "toString" => some 1
-  | "trace" | "objectHas" | "objectHasAll" | "makeArray" | "range" | "map" | "filter" | "mod" => some 2
+  | "trace" | "objectHas" | "objectHasAll" | "makeArray" | "range" | "map" | "filter" | "mod"
+  | "objectRemoveKey" => some 2
   | "foldl" => some 3
   | "slice" => some 4
   | _ => none
@@ -405,17 +426,14 @@ def run : Nat → Task → M Out
       try
         let _ ← run n (.asserts o)
         let layers ← layersOf o
-        -- walk from layer idx-1 down; collect values top-most first until a plain definition
-        let below := (layers.take idx)
+        -- the unmasked definitions below `idx`, top-most first, down to the first plain one
         let mut vals : List Val := []
-        let mut i := below.length
         let mut stop := false
-        for l in below.reverse do
-          i := i - 1
+        for (i, f) in findDefs layers idx name do
           if !stop then
-            match findField l.fields name with
+            match layers[i]? with
             | none => pure ()
-            | some f =>
+            | some l =>
               let c0 : Ctx := { env := f.env, this := some (o, i), dollar := some (l.dollar.getD o) }
               let c ← bindLocals c0 l.locals (some (o, i)) (some (l.dollar.getD o))
               let v ← evalV c f.body
@@ -621,6 +639,14 @@ def run : Nat → Task → M Out
               if name == "objectHasAll" then pure (.val (.bool (hasFieldAll ls f)))
               else pure (.val (.bool (match visOf ls f with | some .hidden => false | some _ => true | none => false)))
             | _, _ => fail "type" "expected object and string"
+          | "objectRemoveKey" => do
+            match ← arg 0, ← arg 1 with
+            | .obj o, .str f =>
+              let ls ← layersOf o
+              let marker : Layer := { mask := some ([f], ls.length), dollar := none, locals := [],
+                                      asserts := [], assertEnv := [], fields := [] }
+              pure (.val (.obj (← allocObj (ls ++ [marker]))))
+            | _, _ => fail "type" "objectRemoveKey(object, string)"
           | "makeArray" => do
             match ← arg 0, ← arg 1 with
             | .num sz, fv@(.func ..) =>
@@ -803,7 +829,7 @@ def run : Nat → Task → M Out
           | none => fail "other" "super outside of object"
           | some (o, sup) =>
             let ls ← layersOf o
-            pure (.val (.bool (hasFieldAll (ls.take sup) f)))
+            pure (.val (.bool (!(findDefs ls sup f).isEmpty)))
         | _ => fail "type" "in super needs a string"
       | .binary op a b => do
         let av ← evalV c a
